@@ -5,7 +5,7 @@
 (*            loan, pool held the coins, withdraw/close never releases pledged collateral)               *)
 (*   Conf_* : the recorded step is the step the specification's handler takes (walk: with no accrual;    *)
 (*            drives: with the accrued interest / reward amounts observed in the log as environment)     *)
-EXTENDS Lend, TLC, Json
+EXTENDS LendLiq, TLC, Json
 CONSTANT LogFile
 Log == ndJsonDeserialize(LogFile)
 NLog == Len(Log)
@@ -52,6 +52,58 @@ C08NoRelease(nd)   ==
               HasId(Pre(nd).lends, b.lend) =>
                  NoRelease(Pre(nd), Post(nd), b.lend, nd.args.u, GetId(Pre(nd).lends, b.lend).asset, b.cin, b.id)
       [] OTHER -> TRUE
+
+(* ---------------------------------------------------------------- C09 (borrow side) on recorded states *)
+PreS(nd) == Log[nd.parent].st
+PostS(nd) == nd.st
+C09OnlyUnsafe(nd)  == Judged(nd) => OnlyUnsafe(CfgOf(nd), PreS(nd), PostS(nd))
+C09Enabled(nd)     == Judged(nd) => OnlyEnabled(CfgOf(nd), PreS(nd), PostS(nd))
+C09SeizeExact(nd)  == Judged(nd) => SeizeExact(CfgOf(nd), PreS(nd), PostS(nd))
+C09Custody(nd)     == Judged(nd) /\ nd.a \in {"Liquidate", "Tick"} => CustodyMoves(CfgOf(nd), PreS(nd), PostS(nd))
+(* bounded response: consecutive blocks during which position bid stayed open, unsafe and enabled (ghost along the path) *)
+IsBlock(nd) == nd.a = "Tick" /\ ~Panicked(nd)
+Bad(liquid, cfg, S, bid) == IF liquid THEN StillBadLiquid(cfg, S, bid) ELSE StillBad(cfg, S, bid)
+RECURSIVE BadBlocks(_, _, _)
+BadBlocks(i, bid, liquid) ==
+  LET nd == Nd(i) IN
+  IF IsRoot(nd) \/ ~Bad(liquid, CfgOf(nd), PostS(nd), bid) \/ ~Bad(liquid, CfgOf(nd), PreS(nd), bid) THEN 0
+  ELSE (IF IsBlock(nd) THEN 1 ELSE 0) + BadBlocks(nd.parent, bid, liquid)
+RECURSIVE MaxLen(_, _)
+MaxLen(i, bid) ==
+  LET nd == Nd(i) IN
+  IF IsRoot(nd) \/ ~StillBad(CfgOf(nd), PreS(nd), bid) THEN SweepLen(PostS(nd))
+  ELSE LET r == MaxLen(nd.parent, bid) IN IF SweepLen(PostS(nd)) > r THEN SweepLen(PostS(nd)) ELSE r
+LiveBound(i, liquid) == LET nd == Nd(i) IN
+  ~IsRoot(nd) /\ IsBlock(nd) => \A b \in Range(Post(nd).borrows) : BadBlocks(i, b.id, liquid) <= 2 * CeilDiv(MaxLen(i, b.id), CfgOf(nd).batch)
+C09Live(i) == LiveBound(i, TRUE)
+C09LiveAny(i) == LiveBound(i, FALSE)
+
+(* ---------------------------------------------------------------- C10 (lend-initiated Dutch auctions) *)
+BidOk(nd) == ~IsRoot(nd) /\ nd.a = "Bid" /\ nd.res.ok /\ HasAuc(PreS(nd), nd.args.auc) /\ AucOf(PreS(nd), nd.args.auc).lend /\ AucOf(PreS(nd), nd.args.auc).dutch
+BidAuc(nd) == AucOf(PreS(nd), nd.args.auc)
+Closing(nd) == BidOk(nd) /\ ~HasAuc(PostS(nd), nd.args.auc)
+C10PaidWithin(nd)  == BidOk(nd) => Paid(PreS(nd), PostS(nd), BidAuc(nd)) >= 0 /\ Paid(PreS(nd), PostS(nd), BidAuc(nd)) <= BidAuc(nd).debtLeft
+C10RecvWithin(nd)  == BidOk(nd) => Received(PreS(nd), PostS(nd), BidAuc(nd)) >= 0 /\ Received(PreS(nd), PostS(nd), BidAuc(nd)) <= BidAuc(nd).collLeft
+C10Posted(nd)      == BidOk(nd) => PostedPrice(CfgOf(nd), PreS(nd), PostS(nd), BidAuc(nd))
+C10Remaining(nd)   == BidOk(nd) /\ ~Closing(nd) =>
+   LET a == BidAuc(nd) a2 == AucOf(PostS(nd), nd.args.auc) IN
+   a2.debtLeft = a.debtLeft - Paid(PreS(nd), PostS(nd), a) /\ a2.collLeft = a.collLeft - Received(PreS(nd), PostS(nd), a) /\ a2.debtLeft > 0
+C10Custody(nd)     == IF IsRoot(nd) THEN CustodyRoot(PostS(nd)) ELSE Judged(nd) => CustodyDelta(PreS(nd), PostS(nd))
+LendDutch(S) == {a \in Range(S.x.aucs) : a.lend /\ a.dutch}
+C10PriceFalls(nd)  == ~IsRoot(nd) /\ IsBlock(nd) => \A a \in LendDutch(PostS(nd)) :
+   HasAuc(PreS(nd), a.id) /\ AucOf(PreS(nd), a.id).start = a.start => LLe(a.price, AucOf(PreS(nd), a.id).price)
+C10PriceInBand(nd) == \A a \in LendDutch(PostS(nd)) : InBand(CfgOf(nd), a)
+C10StartPrice(nd)  == ~IsRoot(nd) /\ Judged(nd) => \A a \in LendDutch(PostS(nd)) :
+   (~HasAuc(PreS(nd), a.id) \/ AucOf(PreS(nd), a.id).start # a.start) => StartPriceOk(CfgOf(nd), PostS(nd), a)
+CloseB(nd) == GetId(Pre(nd).borrows, BidAuc(nd).b)
+CloseL(nd) == LvOf(PreS(nd), BidAuc(nd).lv)
+CloseReady(nd) == Closing(nd) /\ HasLv(PreS(nd), BidAuc(nd).lv) /\ HasId(Pre(nd).borrows, BidAuc(nd).b) /\ HasPair(CfgOf(nd), CloseB(nd).pair)
+EmodeB(nd) == PairC(CfgOf(nd), CloseB(nd).pair).emode
+C10Proceeds(nd)    == CloseReady(nd) /\ ~EmodeB(nd) => CloseProceeds(CfgOf(nd), PreS(nd), PostS(nd), BidAuc(nd), CloseL(nd), CloseB(nd))
+C10ProceedsE(nd)   == CloseReady(nd) /\ EmodeB(nd) => CloseProceeds(CfgOf(nd), PreS(nd), PostS(nd), BidAuc(nd), CloseL(nd), CloseB(nd))
+C10Bridged(nd)     == CloseReady(nd) => CloseBridged(CfgOf(nd), PreS(nd), PostS(nd), BidAuc(nd), CloseL(nd), CloseB(nd))
+C10Owner(nd)       == CloseReady(nd) => CloseOwner(CfgOf(nd), PreS(nd), PostS(nd), BidAuc(nd), CloseL(nd), CloseB(nd))
+C10Records(nd)     == CloseReady(nd) => CloseRecords(CfgOf(nd), PreS(nd), PostS(nd), BidAuc(nd), CloseL(nd), CloseB(nd))
 
 (* ---------------------------------------------------------------- conformance *)
 Walk(nd) == nd.args.mode = "w"
@@ -141,7 +193,11 @@ ConfModel(nd) == ~IsRoot(nd) /\ Walk(nd) /\ "mok" \in DOMAIN nd.res => Act(nd, W
 
 ConfNames == {"Conf_" \o x : x \in Predicted}
 Formulas == <<"C08_BooksRoot", "C08_BooksLend", "C08_BooksLendHandOver", "C08_BooksLendHandOverDrop", "C08_BooksBorrow", "C08_Ltv", "C08_LtvMismatched", "C08_LtvOpenBridged", "C08_LtvDrawBridged", "C08_PoolHeld",
-              "C08_NoRelease", "Conf_Model", "Conf_Lend", "Conf_Deposit", "Conf_Withdraw", "Conf_CloseLend", "Conf_Borrow", "Conf_BorrowAlt",
+              "C08_NoRelease",
+              "C09_BorrowOnlyUnsafe", "C09_BorrowEnabled", "C09_BorrowSeizeExact", "C09_BorrowCustodyMoves", "C09_BorrowLive", "C09_BorrowLiveIlliquid",
+              "C10_LendPaidWithinTarget", "C10_LendReceivedWithinSeized", "C10_LendPostedPrice", "C10_LendRemaining", "C10_LendCustody",
+              "C10_LendPriceFalls", "C10_LendPriceInBand", "C10_LendStartPrice", "C10_LendProceeds", "C10_LendProceedsEmode",
+              "C10_LendBridgedReturned", "C10_LendOwnerGetsRest", "C10_LendRecords", "Conf_Model", "Conf_Lend", "Conf_Deposit", "Conf_Withdraw", "Conf_CloseLend", "Conf_Borrow", "Conf_BorrowAlt",
               "Conf_DepositBorrow", "Conf_Draw", "Conf_Repay", "Conf_CloseBorrow", "Conf_RepayWithdraw", "Conf_FundReserve", "Conf_Price",
               "Conf_Accrue", "Conf_Liquidate", "Conf_FundMod", "Conf_CalcInterest">>
 Holds(f, i) ==
@@ -157,6 +213,25 @@ Holds(f, i) ==
     [] f = "C08_LtvDrawBridged" -> C08LtvDrawBr(nd)
     [] f = "C08_PoolHeld" -> C08PoolHeld(nd)
     [] f = "C08_NoRelease" -> C08NoRelease(nd)
+    [] f = "C09_BorrowOnlyUnsafe" -> C09OnlyUnsafe(nd)
+    [] f = "C09_BorrowEnabled" -> C09Enabled(nd)
+    [] f = "C09_BorrowSeizeExact" -> C09SeizeExact(nd)
+    [] f = "C09_BorrowCustodyMoves" -> C09Custody(nd)
+    [] f = "C09_BorrowLive" -> C09Live(i)
+    [] f = "C09_BorrowLiveIlliquid" -> C09LiveAny(i)
+    [] f = "C10_LendPaidWithinTarget" -> C10PaidWithin(nd)
+    [] f = "C10_LendReceivedWithinSeized" -> C10RecvWithin(nd)
+    [] f = "C10_LendPostedPrice" -> C10Posted(nd)
+    [] f = "C10_LendRemaining" -> C10Remaining(nd)
+    [] f = "C10_LendCustody" -> C10Custody(nd)
+    [] f = "C10_LendPriceFalls" -> C10PriceFalls(nd)
+    [] f = "C10_LendPriceInBand" -> C10PriceInBand(nd)
+    [] f = "C10_LendStartPrice" -> C10StartPrice(nd)
+    [] f = "C10_LendProceeds" -> C10Proceeds(nd)
+    [] f = "C10_LendProceedsEmode" -> C10ProceedsE(nd)
+    [] f = "C10_LendBridgedReturned" -> C10Bridged(nd)
+    [] f = "C10_LendOwnerGetsRest" -> C10Owner(nd)
+    [] f = "C10_LendRecords" -> C10Records(nd)
     [] f = "Conf_Model" -> ConfModel(nd)
     [] OTHER -> (f = "Conf_" \o nd.a) => Conf(nd)
 
@@ -190,6 +265,30 @@ Stats == PrintT(<<"STATS", [nodes |-> NLog,
            rewardPaid |-> Count(RewardPaid),
            stableBorrowed |-> Count(LAMBDA nd : \E i \in Rel(nd) : Post(nd).borrows[i].st),
            haltedBlocks |-> Count(LAMBDA nd : nd.a = "Tick" /\ Panicked(nd)),
+           seizures |-> Count(LAMBDA nd : Judged(nd) /\ SeizedB(PreS(nd), PostS(nd)) # {}),
+           sweepSeizures |-> Count(LAMBDA nd : Judged(nd) /\ nd.a = "Tick" /\ SeizedB(PreS(nd), PostS(nd)) # {}),
+           bridgedSeizures |-> Count(LAMBDA nd : Judged(nd) /\ \E b \in SeizedB(PreS(nd), PostS(nd)) : b.bram > 0),
+           bridged2Seizures |-> Count(LAMBDA nd : Judged(nd) /\ \E b \in SeizedB(PreS(nd), PostS(nd)) : b.bram > 0 /\ b.bra = 3),
+           emodeSeizures |-> Count(LAMBDA nd : Judged(nd) /\ \E b \in SeizedB(PreS(nd), PostS(nd)) : PairC(CfgOf(nd), b.pair).emode),
+           safeLiquidateRequests |-> Count(LAMBDA nd : Judged(nd) /\ nd.a = "Liquidate" /\ nd.res.ok /\ SeizedB(PreS(nd), PostS(nd)) = {}),
+           nearSafeRequests |-> Count(LAMBDA nd : Judged(nd) /\ nd.a = "Liquidate" /\ nd.res.ok /\ HasId(Pre(nd).borrows, nd.args.b) /\
+                                   LET b == GetId(Pre(nd).borrows, nd.args.b) IN
+                                   ~b.liq /\ HasId(Post(nd).borrows, b.id) /\ ~GetId(Post(nd).borrows, b.id).ho /\ UnsafeWith(CfgOf(nd), Pre(nd), [b EXCEPT !.out = (@ * 11) \div 10], b.iT)),
+           nearSafeBridged2 |-> Count(LAMBDA nd : Judged(nd) /\ nd.a \in {"Liquidate", "Tick"} /\ \E b \in Range(Pre(nd).borrows) :
+                                   (nd.a = "Tick" \/ nd.args.b = b.id) /\ ~b.liq /\ b.bram > 0 /\ b.bra = 3 /\ HasId(Post(nd).borrows, b.id) /\ ~GetId(Post(nd).borrows, b.id).ho
+                                   /\ UnsafeWith(CfgOf(nd), Pre(nd), [b EXCEPT !.out = (@ * 11) \div 10], b.iT)),
+           killedSteps |-> Count(LAMBDA nd : Judged(nd) /\ PreS(nd).x.ks /\ nd.a \in {"Liquidate", "Tick"}),
+           blocks |-> Count(LAMBDA nd : ~IsRoot(nd) /\ IsBlock(nd)),
+           longWaits |-> Cardinality({i \in 1..NLog : ~IsRoot(Nd(i)) /\ IsBlock(Nd(i)) /\ \E b \in Range(Post(Nd(i)).borrows) : BadBlocks(i, b.id, TRUE) >= 2}),
+           okBids |-> Count(BidOk),
+           partialBids |-> Count(LAMBDA nd : BidOk(nd) /\ ~Closing(nd)),
+           closingBids |-> Count(Closing),
+           oversizedBids |-> Count(LAMBDA nd : BidOk(nd) /\ nd.args.amt > BidAuc(nd).debtLeft),
+           priceChecks |-> Count(LAMBDA nd : BidOk(nd) /\ Received(PreS(nd), PostS(nd), BidAuc(nd)) > 1),
+           bridgedCloses |-> Count(LAMBDA nd : CloseReady(nd) /\ CloseB(nd).bram > 0),
+           ownerRefunds |-> Count(LAMBDA nd : CloseReady(nd) /\ BidAuc(nd).collLeft > Received(PreS(nd), PostS(nd), BidAuc(nd))),
+           auctionBlocks |-> Count(LAMBDA nd : ~IsRoot(nd) /\ IsBlock(nd) /\ LendDutch(PostS(nd)) # {}),
+           restarts |-> Count(LAMBDA nd : ~IsRoot(nd) /\ IsBlock(nd) /\ \E a \in LendDutch(PostS(nd)) : HasAuc(PreS(nd), a.id) /\ AucOf(PreS(nd), a.id).start # a.start),
            confChecked |-> Count(Predictable),
            confOkSteps |-> Count(LAMBDA nd : Predictable(nd) /\ nd.res.ok) ]>>)
 AllSeen == Stats /\ TLCGet("stats").distinct = NLog
